@@ -16,7 +16,7 @@ TEXT = {
         engine="choice (E1)",
         design_ref="DESIGN.md §3 C11",
         technique="tiered bounded-exhaustive generation of AML programs from the supported grammar subset, encoded by an independent encoder and compared with a reference namespace built from the AST; differential cross-check on an overlay with the kept candidate repair",
-        text="T1 every construct (20) x name form (7) x container (13) x PkgLength encoding; T2 41 call/field/operator/module-level programs (forward, backward and nested calls, calls inside If/While/Store/Add/DerefOf/Index, calls with operator arguments, module-level code) x containers and every ordered pair of constructs; T3 nested containers; T4 two- and three-table loads on one parser (Scope into / call into an earlier table; later tables after a table with deferred Buffer/While/Package blocks); T5 chains of Scope / relocation blocks that need several resolve passes, in every order. For every program the reference accepts: ParseAML succeeds, every named object is found at the absolute path ACPI scoping gives it with its declared kind, constants/strings/buffer bytes/field offset+width/mutex level carry the encoded values, every method invocation anywhere has exactly the declared number of arguments attached, no named object sits at a path the program does not declare. Failures whose program exhibits one of the two known root causes (by structural predicate) are reported as known findings and must pass on a second build with the kept repair applied through the overlay; any other failure is a violation.",
+        text="T1 every construct (20) x name form (7) x container (13) x PkgLength encoding; T2 53 call/field/operator/module-level programs (forward, backward and nested calls, calls inside If/While/Store/Add/DerefOf/Index, calls with operator arguments, calls as the last operand of module-level operators, operators nested in SuperName operands such as SizeOf(DerefOf(Index(..))), module-level code) x containers and every ordered pair of constructs; T3 nested containers; T4 two- and three-table loads on one parser (Scope into / call into an earlier table; later tables after a table with deferred Buffer/While/Package blocks); T5 chains of Scope / relocation blocks that need several resolve passes, in every order. For every program the reference accepts: ParseAML succeeds, every named object is found at the absolute path ACPI scoping gives it with its declared kind, constants/strings/buffer bytes/field offset+width/mutex level carry the encoded values, every method invocation anywhere has exactly the declared number of arguments attached, no named object sits at a path the program does not declare. Failures whose program exhibits one of the two known root causes (by structural predicate) are reported as known findings and must pass on a second build with the kept repair applied through the overlay; any other failure is a violation.",
         note="Programs up to the tier sizes; conditionally declared objects (If at table level) are dynamic and outside the static namespace.",
     ),
     "C12": dict(
